@@ -185,5 +185,62 @@ def r5_filters_only_narrow(chk: Check) -> None:
                          "MEMO-KEY: cached parameter / body strategies are keyed by factory, location, excluded names and the generation settings they are built from")
 
 
+def _kinds(expr: ast.AST, var: str) -> set[str]:
+    """Token kinds an expression compares `var` with: `var == K`, `var in KS`, `var in (K1, K2)`."""
+    out: set[str] = set()
+    for c in ast.walk(expr):
+        if isinstance(c, ast.Compare) and len(c.ops) == 1 and is_var(c.left, var):
+            r = c.comparators[0]
+            if isinstance(c.ops[0], ast.Eq) and dotted(r):
+                out.add(dotted(r))  # type: ignore[arg-type]
+            elif isinstance(c.ops[0], ast.In):
+                if dotted(r):
+                    out.add(dotted(r))  # type: ignore[arg-type]
+                elif isinstance(r, (ast.Tuple, ast.List, ast.Set)):
+                    out |= {dotted(e) for e in r.elts if dotted(e)}  # type: ignore[misc]
+    return out
+
+
+def r6_token_kinds_agree(chk: Check) -> None:
+    chk.rule("C01.R6", "SIBLINGS-AGREE(token kinds admitted vs accounted): every regex token kind that the multi-part anchored branch of the pattern/length merge admits is accounted for when the declared min/max length is split - either counted as fixed length or distributed as a quantifier (an admitted but unaccounted kind consumes characters that are not subtracted: strings exceed maxLength)", floor=1)
+    P = chk.project
+    PAT = "specs/openapi/patterns.py"
+    outer = P.func(f"{PAT}:_handle_parsed_pattern")
+    inner = P.func(f"{PAT}:_handle_anchored_pattern")
+    calls_inner = [c for c in body_calls(outer) if last_attr(c) == "_handle_anchored_pattern"]
+    if not calls_inner:
+        chk.undecided("C01.R6", outer, "multi-part anchored branch", "call of _handle_anchored_pattern not found", outer.loc())
+        return
+    from ..loader import ancestors
+
+    guard = next((a for a in ancestors(calls_inner[0]) if isinstance(a, ast.If)), None)
+    admitted: set[str] = set()
+    if guard is not None:
+        for c in ast.walk(guard.test):
+            if isinstance(c, ast.Call) and dotted(c.func) == "all" and c.args and isinstance(c.args[0], ast.GeneratorExp):
+                ge = c.args[0]
+                t = ge.generators[0].target
+                v = t.elts[0].id if isinstance(t, ast.Tuple) and t.elts and isinstance(t.elts[0], ast.Name) else (t.id if isinstance(t, ast.Name) else None)
+                if v:
+                    admitted |= _kinds(ge.elt, v)
+    accounted: set[str] = set()
+    for n in walk_body(inner.node):
+        if isinstance(n, (ast.GeneratorExp, ast.ListComp)):
+            t = n.generators[0].target
+            v = t.elts[0].id if isinstance(t, ast.Tuple) and t.elts and isinstance(t.elts[0], ast.Name) else None
+            if v:
+                for cond in n.generators[0].ifs:
+                    accounted |= _kinds(cond, v)
+    construct = "kinds admitted by the guard ⊆ kinds counted as fixed length ∪ kinds distributed as quantifiers"
+    if not admitted or not accounted:
+        chk.undecided("C01.R6", outer, construct, f"admitted={sorted(admitted)} accounted={sorted(accounted)}: shape not recognised", outer.loc())
+    elif admitted <= accounted:
+        chk.ok("C01.R6", outer, construct, f"admitted {sorted(admitted)}; accounted {sorted(accounted)}", outer.loc(guard))
+    else:
+        chk.violation("C01.R6", outer, construct,
+                      f"token kind(s) {sorted(admitted - accounted)} are admitted into the multi-part anchored branch but _handle_anchored_pattern neither counts them as fixed length nor distributes them: each such token consumes one character that is not subtracted from minLength/maxLength before the remainder is spread over the quantifiers, and the converter then drops maxLength - positive strings exceed the declared length",
+                      outer.loc(guard))
+
+
 def rules(tier: str) -> list:  # type: ignore[type-arg]
-    return [r1_generator_plumbing, r2_length_keywords, r3_property_stripping, r4_path_location, r5_filters_only_narrow]
+    return [r1_generator_plumbing, r2_length_keywords, r3_property_stripping, r4_path_location, r5_filters_only_narrow, r6_token_kinds_agree]
